@@ -9,6 +9,10 @@ SELECTION = {}
 
 def shard_units(tier, claims, mode=None, tag='', arch=7, sec=True, seed=0, always=(), **kw):
     if tier == 'quick':
+        # the spread is fixed (VERIF_SEED does not rotate it any more): per-shard cost is heavy-tailed (a rotated
+        # spread measured > 4x the wall time of this one), the thorough tier explores every shard, and the
+        # change-directed selection below adds the shards a change can affect
+        seed = 0
         sh = sweep.quick_sample(sweep.arm_shards(), 24, seed) + sweep.quick_sample(sweep.t16_shards(), 24, seed) + \
             sweep.quick_sample(sweep.t32_shards(), 24, seed)
         have = set(n for n, _ in sh)
@@ -64,7 +68,7 @@ META = {
     'bounds': ['single step from an arbitrary valid state (multi-instruction programs follow by induction with the '
                'range/alignment invariants re-established after every step)', 'register lists of LDM/STM are windowed: '
                '4 list bits symbolic (r0-r3 or r12-r15 incl. SP/LR/PC/base-in-list; Thumb-16: r0-r3 or r4-r7), the others zero',
-               'quick: 24 ARM + 24 Thumb-16 + 24 Thumb-32 shards spread over the space (offset rotated by VERIF_SEED) plus, '
+               'quick: 24 ARM + 24 Thumb-16 + 24 Thumb-32 shards spread over the space (a fixed spread) plus, '
                'change-directed, the shards that executed a source file differing from the last fully checked tree when '
                'that file is specific to at most 24 shards (vf/changed.py; selection only, verdicts stay per shard); thorough: all shards '
                '(+ arch 6, no-security and SCTLR.{A,V,EE,TE}-symbolic samples)', 'MPU off',
